@@ -148,6 +148,7 @@ type wcase struct {
 	in   []byte
 	tx   *bt.Tx
 	src  string
+	in2  []byte // bytes-retained: the transaction parsed in between
 }
 
 func capInt(v uint64) int {
@@ -171,6 +172,15 @@ func doParse(c wcase) Ev {
 			var tx *bt.Tx
 			tx, err = bt.NewTxFromBytes(c.in)
 			if err == nil {
+				txs, used = []*bt.Tx{tx}, int64(len(c.in))
+			}
+		case "bytes-retained":
+			// the result of one parse is looked at only after another, different, transaction has been parsed:
+			// a decoded transaction owns its bytes
+			var tx *bt.Tx
+			tx, err = bt.NewTxFromBytes(c.in)
+			if err == nil {
+				_, _ = bt.NewTxFromBytes(c.in2)
 				txs, used = []*bt.Tx{tx}, int64(len(c.in))
 			}
 		case "stream":
@@ -662,6 +672,24 @@ func txwire(args []string) error {
 					parseAll("gen-item", ob[:len(ob)-1], "output")
 				}
 			}
+		}
+		// two different transactions with fields above 64 KiB, the first inspected after the second was parsed
+		bigTx := func(lo, lu, lp int, ext bool) []byte {
+			t := &bt.Tx{Version: 1}
+			in := &bt.Input{PreviousTxOutIndex: 1, SequenceNumber: 5, UnlockingScript: bscript.NewFromBytes(randBytes(rng, lu)),
+				PreviousTxScript: bscript.NewFromBytes(randBytes(rng, lp)), PreviousTxSatoshis: 9}
+			_ = in.PreviousTxIDAdd(randBytes(rng, 32))
+			t.Inputs = []*bt.Input{in}
+			t.AddOutput(&bt.Output{Satoshis: 3, LockingScript: bscript.NewFromBytes(randBytes(rng, lo))})
+			if ext {
+				return t.ExtendedBytes()
+			}
+			return t.Bytes()
+		}
+		for _, sh := range [][7]int{{70000, 3, 0, 0, 66000, 3, 0}, {3, 70000, 0, 0, 66000, 3, 0}, {3, 3, 70000, 1, 3, 3, 69000}, {70000, 70001, 0, 0, 65537, 65538, 0}, {200, 3, 0, 0, 66000, 3, 0}} {
+			a := bigTx(sh[0], sh[1], sh[2], sh[3] == 1)
+			b := bigTx(sh[4], sh[5], sh[6], sh[3] == 1)
+			cases = append(cases, wcase{kind: "parse", api: "bytes-retained", in: a, in2: b, src: "gen-retained"})
 		}
 		// crafted: a valid prefix up to each length/count field, then a varint claiming a huge value
 		for i := 0; i < *crafted; i++ {
